@@ -248,9 +248,16 @@ func (x *Exec) alloc(fr *Frame, st *State, v *ssa.Alloc) {
 	p := Val{T: ref, Typ: v.Type()}
 	x.storePtr(st, p, t, x.zeroOf(t))
 	fr.vals[v] = p
-	if _, isStruct := asStruct(t); !isStruct {
+	if su, isStruct := asStruct(t); !isStruct {
 		if _, isArr := t.Underlying().(*types.Array); !isArr && addrPrivate(v, 0) {
 			hn, _ := x.S.CellHeapT(t)
+			x.privCells = append(x.privCells, privCell{heap: hn, ref: ref})
+		}
+	} else if addrPrivate(v, 0) {
+		// a struct-typed local lives in its fields' heaps
+		ss := x.S.SortOf(t)
+		for i := 0; i < su.NumFields(); i++ {
+			hn, _ := x.S.FieldHeap(ss, su, i)
 			x.privCells = append(x.privCells, privCell{heap: hn, ref: ref})
 		}
 	}
